@@ -14,6 +14,9 @@ pub struct Case {
   pub script: Vec<N>,
   pub threads_subject: bool,
   pub cold: bool,
+  /// Some(n): a stateful discriminator (group_by takes an FnMut): the key of
+  /// the i-th item handed to it is i / n, whatever the item is
+  pub chunk: Option<i64>,
 }
 
 /// outer observer: logs the announcement, then subscribes a probe to the group
@@ -50,6 +53,7 @@ pub fn observe(c: &Case) -> Result<Vec<Ev>, String> {
   catch(|| {
     let log = Log::new();
     let key = c.key.clone();
+    let chunk = c.chunk;
     let script = c.script.clone();
     macro_rules! go {
       ($subj:ty) => {{
@@ -64,13 +68,31 @@ pub fn observe(c: &Case) -> Result<Vec<Ev>, String> {
               }
             }
           })
-          .group_by::<_, i64, $subj>(move |v: &V| key.eval(v))
+          .group_by::<_, i64, $subj>({
+            let mut calls = 0i64;
+            move |v: &V| {
+              calls += 1;
+              match chunk {
+                Some(n) => (calls - 1) / n,
+                None => key.eval(v),
+              }
+            }
+          })
           .actual_subscribe(Outer::<$subj> { log: log.clone(), _s: Default::default() });
         } else {
           let mut src = Subject::<'static, V, E>::default();
           src
             .clone()
-            .group_by::<_, i64, $subj>(move |v: &V| key.eval(v))
+            .group_by::<_, i64, $subj>({
+              let mut calls = 0i64;
+              move |v: &V| {
+                calls += 1;
+                match chunk {
+                  Some(n) => (calls - 1) / n,
+                  None => key.eval(v),
+                }
+              }
+            })
             .actual_subscribe(Outer::<$subj> { log: log.clone(), _s: Default::default() });
           for n in script {
             match n {
@@ -101,10 +123,16 @@ pub fn judge(c: &Case, o: &Result<Vec<Ev>, String>) -> Option<(String, serde_jso
   let mut keys: Vec<i64> = vec![];
   let mut per: std::collections::BTreeMap<i64, Vec<N>> = Default::default();
   let mut term: Option<N> = None;
+  let mut nth = 0i64;
   for n in &src {
     match n {
       N::Next(v) => {
-        let k = c.key.eval(v);
+        // the discriminator is applied once to every item, in source order
+        let k = match c.chunk {
+          Some(n) => nth / n,
+          None => c.key.eval(v),
+        };
+        nth += 1;
         if !keys.contains(&k) {
           keys.push(k)
         }
@@ -177,7 +205,10 @@ fn check(cfg: &Cfg, rep: &mut Report, id: &str, c: &Case) {
     }
   }
   rep.set("group_subject_types", if c.threads_subject { "SubjectThreads" } else { "Subject" });
-  let res = judge(c, &o).or_else(|| if !c.cold { flatten_check(c) } else { None });
+  if c.chunk.is_some() {
+    rep.count("cases_with_a_stateful_discriminator", 1);
+  }
+  let res = judge(c, &o).or_else(|| if !c.cold && c.chunk.is_none() { flatten_check(c) } else { None });
   if let Some((kind, detail)) = res {
     rep.violation(&kind, if c.threads_subject { "group_by[SubjectThreads]" } else { "group_by[Subject]" }, id, json!({"case": format!("{:?}", c), "result": detail}));
   } else if let Ok(evs) = &o {
@@ -205,7 +236,13 @@ pub fn run(cfg: &Cfg, rep: &mut Report) {
           if cold && idx % 4 != 0 {
             continue;
           }
-          check(cfg, rep, &format!("enum:{}", idx), &Case { key: key.clone(), script: s.clone(), threads_subject, cold });
+          check(cfg, rep, &format!("enum:{}", idx), &Case { key: key.clone(), script: s.clone(), threads_subject, cold, chunk: None });
+          if *key == KeyF::Const {
+            // the same scripts with the stateful discriminators in place of the constant one
+            for n in [1i64, 2, 3] {
+              check(cfg, rep, &format!("enum:{}:chunk{}", idx, n), &Case { key: key.clone(), script: s.clone(), threads_subject, cold, chunk: Some(n) });
+            }
+          }
         }
       }
     }
@@ -223,6 +260,7 @@ pub fn run(cfg: &Cfg, rep: &mut Report) {
       script: crate::gen::random_script(&mut r, cfg.n(8, 12), 4, true),
       threads_subject: r.chance(1, 2),
       cold: r.chance(1, 4),
+      chunk: if r.chance(1, 5) { Some(1 + r.below(3) as i64) } else { None },
     };
     check(cfg, rep, &format!("rand:{}", i), &c);
   }
